@@ -54,10 +54,11 @@ func GenFlow(rng *rand.Rand, o GenOpts) *FlowP {
 		f.Params = append(f.Params, t)
 		avail = append(avail, t)
 	}
-	if o.Emitters && rng.Intn(2) == 0 {
+	if o.Emitters && rng.Intn(10) < 7 {
 		f.Emitters = 1 + rng.Intn(3)
 		f.EmitNest = f.Emitters >= 2 && rng.Intn(2) == 0
 		f.InstrFlow = rng.Intn(4) != 0
+		f.EmitShared = rng.Intn(3) == 0
 	}
 	for id := 0; id < nT; id++ {
 		t := TaskP{ID: id}
@@ -127,7 +128,7 @@ func GenFlow(rng *rand.Rand, o GenOpts) *FlowP {
 			} else if rng.Intn(12) == 0 {
 				t.Pred = &PredP{Ctx: rng.Intn(2) == 0}
 			}
-			if t.Err && nout > 0 && rng.Intn(3) == 0 {
+			if t.Err && nout > 0 && rng.Intn(5) < 2 {
 				t.Fallback = true
 			}
 			switch r := rng.Intn(10); {
@@ -145,7 +146,7 @@ func GenFlow(rng *rand.Rand, o GenOpts) *FlowP {
 			}
 			t.WrapFn = f.WrapArgs && rng.Intn(3) == 0
 		}
-		if f.Emitters > 0 && rng.Intn(2) == 0 && !o.AutoInstr {
+		if f.Emitters > 0 && rng.Intn(10) < 6 && !o.AutoInstr {
 			t.Instr = true
 		}
 		for k := 0; k < nout; k++ {
@@ -219,10 +220,11 @@ func Relist(rng *rand.Rand, f *FlowP) *FlowP {
 // GenPar draws a random Parallel program.
 func GenPar(rng *rand.Rand, o GenOpts) *ParP {
 	p := &ParP{OptSeed: rng.Int63(), WrapArgs: rng.Intn(4) != 0, ErrIdent: rng.Intn(3) == 0}
-	if o.Emitters && rng.Intn(2) == 0 {
+	if o.Emitters && rng.Intn(10) < 7 {
 		p.Emitters = 1 + rng.Intn(3)
 		p.EmitNest = p.Emitters >= 2 && rng.Intn(2) == 0
 		p.InstrPar = rng.Intn(4) != 0
+		p.EmitShared = rng.Intn(3) == 0
 	}
 	switch rng.Intn(5) {
 	case 0, 1:
@@ -259,7 +261,7 @@ func GenPar(rng *rand.Rand, o GenOpts) *ParP {
 			if t.Form == FormTop {
 				t.Ctx = true
 			}
-			if p.Emitters > 0 && rng.Intn(2) == 0 && !o.AutoInstr {
+			if p.Emitters > 0 && rng.Intn(10) < 6 && !o.AutoInstr {
 				t.Instr = true
 			}
 			p.Tasks = append(p.Tasks, t)
